@@ -207,6 +207,23 @@ def run_file(case, ctx):
                     if f[1::2] != recs[1::2] or f[::-1] != recs[::-1]:
                         fail("slice/wrong", "%s slices differ" % rd.__name__)
                         return
+                    # every access returns load(line): a record the caller was given earlier and has modified since must not
+                    # come back (nor be shared by two lines of one slice)
+                    if recs and getattr(recs[0], "__dict__", None):
+                        name = next(iter(vars(recs[0])))
+                        for i in (0, len(recs) - 1):
+                            r = f[i]
+                            setattr(r, name, "modified by the caller")
+                            if f[i] != recs[i]:
+                                fail("getitem/returns-a-record-the-caller-modified", "%s[%d] gives %r after the caller changed the record it got before; "
+                                     "load(line) is %r" % (rd.__name__, i, f[i], recs[i]))
+                                return
+                        sl = f[0:2]
+                        setattr(sl[0], name, "modified by the caller")
+                        if sl[1:] != recs[1:2] or list(f) != recs:
+                            fail("slice/records-share-state", "%s: changing one record of a slice changed another one / later reads" % rd.__name__)
+                            return
+                        ctx.label("caller-modified-a-returned-record")
             if not raw and case["mutable"].startswith("MutableMemory"):
                 return
             mcls = FG.VARIANTS[case["mutable"]][0]
